@@ -899,6 +899,7 @@ func run(c *mon.Ctx) {
 	c.Watchdog(512<<20, 10*time.Second)
 	c.Floor("outcome.returned", 10000)
 	c.Floor("long_sections.driven", 300)
+	c.Floor("cost_scaling.comparisons", 12)
 	c.Floor("input.front_of_a_larger_buffer", 5000)
 
 	type format struct {
@@ -1237,6 +1238,62 @@ func run(c *mon.Ctx) {
 		}
 		c.Count("long_sections.driven")
 		driveSCTE35(r.Slack(b))
+	})
+	// ---- cost grows with the size of the input, not with its square: the same kind of splice_info_section at 4 KiB
+	// and at 64 KiB (16 times as long), decoded, printed and re-encoded; the comparison is between two CPU-time
+	// measurements of this process (no deadline), and only a large absolute cost can fail it
+	c.StreamSeedless("cost-scaling", 4, func(k int, r *gen.Rand) {
+		build := func(target int) []byte {
+			sg := ref.GenSig(r, false)
+			sg.Descs, sg.Ptr, sg.Comps, sg.Cmd = nil, 0, nil, []byte{0x00, 0x06, 0x05, 0x06}[k]
+			for size := len(sg.Section()); size < target-300; {
+				d := ref.GenSegDesc(r, false)
+				d.Cancel = k == 3
+				if k%2 == 0 {
+					// component mode, the most text per input byte
+					d.ProgSeg, d.UPIDType, d.UPID, d.MID, d.HasDur, d.HasSub, d.Comps = false, 0, nil, nil, false, false, nil
+					for j := 0; j < 38; j++ {
+						d.Comps = append(d.Comps, ref.SegComp{Tag: byte(j), Off: r.U33()})
+					}
+				}
+				sg.Descs = append(sg.Descs, d)
+				size += len(d.Enc())
+			}
+			return sg.Payload()
+		}
+		cost := func(b []byte, what func(x scte35.SCTE35)) time.Duration {
+			best := time.Duration(1 << 62)
+			for rep := 0; rep < 3; rep++ {
+				x, err := scte35.NewSCTE35(b)
+				if err != nil || x == nil {
+					return 0
+				}
+				c.PersistInput("cost of printing / re-encoding a large section", b)
+				t0 := mon.ProcessCPU()
+				what(x)
+				if d := mon.ProcessCPU() - t0; d < best {
+					best = d
+				}
+			}
+			return best
+		}
+		curMut = "cost-scaling"
+		small, large := build(4096), build(65000)
+		for name, what := range map[string]func(x scte35.SCTE35){
+			"String()":     func(x scte35.SCTE35) { _ = x.String() },
+			"UpdateData()": func(x scte35.SCTE35) { x.UpdateData() },
+			"getters":      func(x scte35.SCTE35) { callAll("SCTE35", nil, x, 2) },
+		} {
+			cs, cl := cost(small, what), cost(large, what)
+			c.Eval(1)
+			c.Count("cost_scaling.comparisons")
+			// 16 times the input: a linear cost grows 16-fold, a quadratic one 256-fold
+			if cl > 300*time.Millisecond && cl > 80*cs {
+				c.Fail("cost-scaling: SCTE35."+name, fmt.Sprintf("%s of a %d-byte splice_info_section costs %v of CPU time, %d times as much as for a %d-byte section of the same kind (the input is 16 times as long)", name, len(large), cl, cl/(cs+1), len(small)),
+					wit{Entry: "SCTE35." + name, Mutator: "cost-scaling", Detail: fmt.Sprintf("%d bytes: %v, %d bytes: %v", len(small), cs, len(large), cl)})
+			}
+		}
+		c.Class(fmt.Sprintf("cost-scaling/%d", k))
 	})
 	// ---- getters of one decoded object called from several goroutines at once (they only read it): no panic, no
 	// fatal error of the runtime (an unlocked map filled in on first use ends the process)
